@@ -326,7 +326,17 @@ func c19Sources(cfg Config, lim c19Limits) ([]ListSource, error) {
 	root := prng.New(cfg.Seed)
 	var srcs []ListSource
 	for i := 0; i < lim.lists; i++ {
-		l := corpus.GenList(root.Derive("c19-list", i), i)
+		lr := root.Derive("c19-list", i)
+		l := corpus.GenList(lr, i)
+		src := ListSource{Spec: &l}
+		if lr.Bool(0.3) { // a list that went through a pipeline of transformations first
+			src.Ops = genOps(lr)
+		}
+		srcs = append(srcs, src)
+	}
+	// a few big lists: hundreds of cues, dozens of styles and regions (threshold-triggered code paths)
+	for i := 0; i < lim.lists/100+2; i++ {
+		l := corpus.GenListSized(root.Derive("c19-biglist", i), 100000+i, 40, 25, 300)
 		srcs = append(srcs, ListSource{Spec: &l})
 	}
 	if lim.docLists {
